@@ -40,20 +40,30 @@ def scratch_setup():
 def main():
     global SCR
     args = sys.argv[1:]
-    src = '/tmp/ben'; seed = '1'
+    src = '/tmp/ben'; seed = '1'; stored = False
     while args and args[0].startswith('--'):
         a = args.pop(0)
         if a == '--src': src = args.pop(0)
         elif a == '--scr': SCR = args.pop(0)
         elif a == '--seed': seed = args.pop(0)
+        elif a == '--stored': stored = True   # re-run the patches kept under /verif/benign/<id>/ (ids as arguments, or all)
     scratch_setup()
     os.makedirs(OUT, exist_ok=True)
     env = {'CARGO_NET_OFFLINE': 'true', 'CARGO_TARGET_DIR': f'{SCR}/target', 'VERIF_OUT': OUT, 'VERIF_DIR': VERIF,
            'VERIF_SEED': seed, 'VERIF_CLI_BIN': f'{SCR}/target/release/islamic_prayer_times'}
     head = sh('git -C /repo rev-parse HEAD').stdout.strip()
-    for bid in args:
-        for n in (1, 2):
-            patch = f'{src}_out/{bid}/patch{n}.diff'
+    work = []
+    if stored:
+        ids = args or sorted(os.listdir(f'{VERIF}/benign'))
+        for i in ids:
+            if os.path.exists(f'{VERIF}/benign/{i}/patch.diff'):
+                work.append((i.rsplit('-', 1)[0], i.rsplit('-', 1)[1], f'{VERIF}/benign/{i}/patch.diff'))
+    else:
+        for bid in args:
+            for n in (1, 2):
+                work.append((bid, n, f'{src}_out/{bid}/patch{n}.diff'))
+    for bid, n, patch in work:
+        if True:
             if not os.path.exists(patch) or os.path.getsize(patch) == 0:
                 print(f'{bid}-{n}: no patch'); continue
             meta = {'id': f'{bid}-{n}', 'base_commit': head, 'seed': int(seed), 'checks': {}}
@@ -91,7 +101,8 @@ def main():
                 sh(f'git -C {SCR}/repo checkout -- .')
             d = f'{VERIF}/benign/{bid}-{n}'
             os.makedirs(d, exist_ok=True)
-            shutil.copy(patch, f'{d}/patch.diff')
+            if os.path.abspath(patch) != os.path.abspath(f'{d}/patch.diff'):
+                shutil.copy(patch, f'{d}/patch.diff')
             if os.path.exists(f'{src}_out/{bid}/notes.md'): shutil.copy(f'{src}_out/{bid}/notes.md', f'{d}/notes.md')
             old = {}
             if os.path.exists(f'{d}/meta.json'):
